@@ -217,7 +217,12 @@ class SymmetryTranslator:
                     for pred in potential_equalities[index]:
                         used_variables.update(collect_ast(pred.atom.symbol.arguments[pos], "Variable"))
                         used_uneq_variables[index].update(collect_ast(pred.atom.symbol.arguments[pos], "Variable"))
-            if len((global_vars_inside_body(lits) | global_vars) & used_variables) == 0:
+            # all variables of the remaining literals, also the ones inside aggregates and conditional literals:
+            # a variable that is global in the rule is visible there as well
+            visible_vars: set[AST] = set(global_vars)
+            for lit in lits:
+                visible_vars.update(collect_ast(lit, "Variable"))
+            if len(visible_vars & used_variables) == 0:
                 # built ccs, in a cc, only one comparison can be improved
                 g = nx.Graph()
                 for index1 in index_subset:
@@ -380,7 +385,9 @@ class SymmetryTranslator:
                 for t in elem.terms:  # variables of the tuple are observed outside of the condition
                     global_vars.update(collect_ast(t, "Variable"))
                 for symmetry_bundle in list(
-                    self.largest_symmetric_group(condition, global_vars, list(elem.terms) + list(stm.body), True)
+                    self.largest_symmetric_group(
+                        condition, global_vars, list(elem.terms) + [x for x in stm.body if x != blit], True
+                    )
                 ):
                     log.info(f"Replace atleast2 in aggregate {str(blit)}.")
                     for lit in symmetry_bundle.remove_lits():
